@@ -147,6 +147,8 @@ def eval_case(case):
         if case.get("broken_stdio"):
             kwx["broken_stdio"] = case["broken_stdio"]
             bump("c10_runs_with_conductors_own_stdio_broken")
+        if any(st[0] in ("file", "symlink") and st[1].split("/")[0] in ("args.json", "options.json") for sc0 in case["scripts"].values() for st in sc0["steps"]):
+            bump("c10_runs_with_an_entry_left_under_a_records_name")
         r = pr.cond(argv, timeout=300, stall_check=True, **kwx)
         evs = pr.events()
         slim = {"tasks": [{k: t[k] for k in ("id", "kind", "deps", "par", "args", "options")} for t in case["tasks"]], "mode": case["mode"], "jobs": case["jobs"],
@@ -263,7 +265,7 @@ def main(tier, n=None):
     cli.warm()
     res = common.parallel_map(eval_case, cases, timeout=900)
     rep.merge_pool(res, cases)
-    return rep.finish(required_reach=["c10_log_files_compared", "c10_bytes_compared", "c10_json_checks", "c10_forward_checks", "c10_parallel_mode_runs"])
+    return rep.finish(required_reach=["c10_log_files_compared", "c10_bytes_compared", "c10_json_checks", "c10_forward_checks", "c10_parallel_mode_runs", "c10_runs_with_an_entry_left_under_a_records_name"])
 
 
 def replay(path):
